@@ -36,27 +36,27 @@ type ModItem struct {
 }
 
 type Contract struct {
-	Func     string
-	Props    []string
-	Requires []*Clause
-	Assumes  []*Clause
-	Excepts  []*Clause // known-finding carve-outs: name = KF id, E = predicate describing the inputs that fail
-	Ensures  []*Clause
-	Modifies []*ModItem
-	modSrc   []string
-	LoopInv  map[int][]*Clause
-	Flags    map[string]bool
-	Pos      token.Position
-	IsIface  bool
-	Lemma    bool
-	Splits   []string
-	rawMods  []rawMod
-	Use      map[string]map[string]bool  // callee → the callee's ensures clauses assumed at call sites (default: all)
-	Asserts  map[string][]*Clause        // cut points: "before <callee>#<n>" → clauses checked, then assumed
-	Ghosts   map[string][]ghostDef // cut point key → ghost variables bound there
-	ExitAsserts []*Clause             // checked at every return site; may name locals; not exported to callers
-	Inline   map[string]bool             // callees executed from their bodies instead of their contracts
-	Witness  map[string]map[string]SExpr // clause name → existential variable → witness term (tried at return sites)
+	Func        string
+	Props       []string
+	Requires    []*Clause
+	Assumes     []*Clause
+	Excepts     []*Clause // known-finding carve-outs: name = KF id, E = predicate describing the inputs that fail
+	Ensures     []*Clause
+	Modifies    []*ModItem
+	modSrc      []string
+	LoopInv     map[int][]*Clause
+	Flags       map[string]bool
+	Pos         token.Position
+	IsIface     bool
+	Lemma       bool
+	Splits      []string
+	rawMods     []rawMod
+	Use         map[string]map[string]bool  // callee → the callee's ensures clauses assumed at call sites (default: all)
+	Asserts     map[string][]*Clause        // cut points: "before <callee>#<n>" → clauses checked, then assumed
+	Ghosts      map[string][]ghostDef       // cut point key → ghost variables bound there
+	ExitAsserts []*Clause                   // checked at every return site; may name locals; not exported to callers
+	Inline      map[string]bool             // callees executed from their bodies instead of their contracts
+	Witness     map[string]map[string]SExpr // clause name → existential variable → witness term (tried at return sites)
 }
 
 type ghostDef struct {
